@@ -17,6 +17,7 @@ EXPLANATION = (
     "(R7); a second start with a live runtime throws (R8). Not decided: the race between the counter and task creation "
     "as such (R1's order is its necessary condition); re-initialisation of all global state on restart.")
 ASSUMPTIONS = ["util::yield_while(f) returns only when f() returned false", "PIKA_THROW_EXCEPTION does not return"]
+THOROUGH_CONFIGS = [["-UNDEBUG", "-DPIKA_DEBUG"]]
 FLOORS = {"C05.R1": 6, "C05.R2": 1, "C05.R3": 5, "C05.R4": 4, "C05.R5": 5, "C05.R6": 8, "C05.R7": 8, "C05.R8": 1}
 
 
